@@ -112,35 +112,71 @@ func c08a(c *Ctx) {
 		okB = dnfEquiv(d, mkDNF([]string{}))
 	}
 	c.Check(okB, "header/terminator", pos, "'.byte 0' exactly once, unconditionally, after all header lines", "the header terminator '.byte 0' is not written exactly once after both header loops")
-	// script emissions
-	var plainScript, tableScript ssa.CallInstruction
-	for _, call := range callsToIn(fn, es) {
-		a := c.term(fn, call.Common().Args[1])
+	// script emissions: performed here or through helpers (the calls are read as fn sees them)
+	var plainScript, tableScript *vCall
+	vcs := c.virtualCalls(fn, es, 2)
+	for i := range vcs {
+		if len(vcs[i].argT) < 2 {
+			continue
+		}
+		a := vcs[i].argT[1]
 		if e, ok := ranged(a, "$1.MapScripts"); ok && a == e+".Script" {
-			plainScript = call
+			plainScript = &vcs[i]
 		}
 		if e, ok := ranged(a, "$1.TableMapScripts"); ok {
 			if e2, ok2 := ranged(a, e+".Entries"); ok2 && a == e2+".Script" {
-				tableScript = call
+				tableScript = &vcs[i]
 			}
 		}
 	}
-	nScripts := len(callsToIn(fn, es))
+	nScripts := len(vcs)
 	c.Check(plainScript != nil && nScripts == 2, "scripts/plain-own-script", pos, "each plain entry's own inline script is emitted", "inline scripts of plain entries are not emitted as emitScriptStatement(entry.Script) over the range of MapScripts")
 	c.Check(tableScript != nil && nScripts == 2, "scripts/table-own-scripts", pos, "each table entry's own inline script is emitted inside its table's iteration", "inline scripts of table entries are not emitted as emitScriptStatement(entry.Script) over the entries of the table being emitted (scripts would be missing, duplicated or attached to the wrong table)")
-	for _, call := range []ssa.CallInstruction{plainScript, tableScript} {
-		if call == nil {
+	for _, vc := range []*vCall{plainScript, tableScript} {
+		if vc == nil {
 			continue
 		}
-		a := c.term(fn, call.Common().Args[1])
+		a := vc.argT[1]
+		// the text of this very call is appended to a builder of the function that makes it
 		written := false
-		for _, w := range ws {
-			if ex, ok := w.arg.(*ssa.Extract); ok && ex.Tuple == call.(ssa.Value) && ex.Index == 0 {
-				written = true
+		for _, w := range writeSites(vc.origin) {
+			if ex, ok := w.arg.(*ssa.Extract); ok && ex.Tuple == vc.inner.(ssa.Value) && ex.Index == 0 {
+				_, isParam := w.sb.(*ssa.Parameter)
+				written = isParam || vc.origin == fn
 			}
 		}
-		c.Check(hasLit(c.mustLits(fn, call.Block()), "-("+a+" == nil)") && written && bz != nil && len(bz) == 1 && !canReach(call.(ssa.Instruction), bz[0].call.(ssa.Instruction)) && noEarlyExit(c, fn, call.Block()),
-			"scripts/guard-written-after-header["+pretty(a)+"]", c.W.Pos(call.Pos()), "emitted iff present, appended to the output, after the header, for every entry", "an inline script is not (emitted iff non-nil, its text appended, after '.byte 0', for every entry)")
+		guarded := !vc.cond.unknown && len(vc.cond.cs) > 0
+		for _, cj := range vc.cond.cs {
+			guarded = guarded && hasLit(cj, "-("+a+" == nil)")
+		}
+		full := true
+		fnOf := map[*ssa.BasicBlock]*ssa.Function{}
+		for _, b := range vc.blocks {
+			fnOf[b] = b.Parent()
+		}
+		for _, b := range vc.blocks {
+			if loopHeaders(b.Parent())[b] != nil && !noEarlyExit(c, b.Parent(), b) {
+				full = false
+			}
+		}
+		c.Check(guarded && written && full,
+			"scripts/guard-written-after-header["+pretty(a)+"]", c.W.Pos(vc.site.Pos()), "emitted iff present, appended to the output, for every entry", "an inline script is not (emitted iff non-nil, its text appended, for every entry)")
+	}
+	// shape of the whole output, wherever its pieces are written
+	if sbv := returnedBuilder(fn); sbv != nil {
+		nfa := c.outputNFA(fn, sbv)
+		mark := gOpt(gLit("# %d \"%s\"\n"))
+		want := gSeq(
+			gAlt(gLit("%s::\n"), gLit("%s:\n")),
+			gStar(gSeq(mark, gLit("\tmap_script %s, %s\n"))),
+			gLit("\t.byte 0\n\n"),
+			gStar(gAtom("emitScriptStatement")),
+			gStar(gSeq(gLit("%s:\n"), gStar(gSeq(mark, gLit("\tmap_script_2 %s, %s, %s\n"))), gLit("\t.2byte 0\n\n"), gStar(gAtom("emitScriptStatement")))),
+		)
+		okG, word := nfa.includedIn(want)
+		c.Check(okG, "output-shape", pos, "every output is: label, header lines, '.byte 0', plain inline scripts, then per table: label, entry lines, '.2byte 0', the table's inline scripts", "the map script statement can write "+fmt.Sprintf("%q", word)+", which is not of the shape "+want.String())
+	} else {
+		c.Bad("output-shape", pos, "cannot find the builder whose text is returned")
 	}
 	// tables
 	lbl := find("%s:\n", func(w writeSite) bool { _, ok := ranged(argT(w, 0), "$1.TableMapScripts"); return ok })
@@ -155,25 +191,8 @@ func c08a(c *Ctx) {
 	e, okE := ranged(argT(ent[0], 0), tbl+".Entries")
 	c.Check(okE && argT(ent[0], 0) == e+".Condition.Literal" && argT(ent[0], 1) == e+".Comparison" && argT(ent[0], 2) == e+".Name" && noEarlyExit(c, fn, ent[0].call.Block()), "tables/entry-line", c.W.Pos(ent[0].call.Pos()), "one 'map_script_2 cond, value, name' per entry of this table (all three from the same entry)", "entry lines are not (entry.Condition.Literal, entry.Comparison, entry.Name) over the full range of the table's own entries")
 	c.Check(uncond(&ent[0]) && uncond(&lbl[0]) && uncond(&tz[0]), "tables/lines-unconditional", c.W.Pos(ent[0].call.Pos()), "table label, every entry line and the terminator are written unconditionally", "a table line is written only under an extra condition (rows could be skipped, e.g. depending on line markers)")
-	lh := loopHeaders(fn)
-	outer := lh[lbl[0].call.Block()]
-	inner := lh[ent[0].call.Block()]
-	headOf := func(h *ssa.BasicBlock) ssa.Instruction {
-		if h == nil {
-			return nil
-		}
-		return h.Instrs[0]
-	}
-	within := func(a, b ssa.Instruction) bool { // a before b within one outer iteration
-		_, ok := existsPath(pathQuery{from: after(a), target: func(in ssa.Instruction) bool { return in == b }, stopAt: func(in ssa.Instruction) bool { return in == headOf(outer) }})
-		return ok
-	}
-	okT := outer != nil && inner != nil && outer != inner && lh[tz[0].call.Block()] == outer &&
-		within(lbl[0].call.(ssa.Instruction), ent[0].call.(ssa.Instruction)) && within(ent[0].call.(ssa.Instruction), tz[0].call.(ssa.Instruction)) && !within(tz[0].call.(ssa.Instruction), ent[0].call.(ssa.Instruction)) &&
-		within(tz[0].call.(ssa.Instruction), tableScript.(ssa.Instruction)) && !within(tableScript.(ssa.Instruction), tz[0].call.(ssa.Instruction)) && !within(ent[0].call.(ssa.Instruction), lbl[0].call.(ssa.Instruction))
-	c.Check(okT, "tables/order-within-table", c.W.Pos(tz[0].call.Pos()), "label, entry lines, '.2byte 0' once, then this table's inline scripts — per table", "per table the order is not: label, all entry lines, one '.2byte 0', the table's inline scripts")
 	c.Check(noEarlyExit(c, fn, lbl[0].call.Block()), "tables/all-tables", c.W.Pos(lbl[0].call.Pos()), "every table is emitted", "the table loop can be left early")
-	c.Check(!canReach(lbl[0].call.(ssa.Instruction), bz[0].call.(ssa.Instruction)) && (plainScript == nil || !canReach(lbl[0].call.(ssa.Instruction), plainScript.(ssa.Instruction))), "tables/after-plain-scripts", c.W.Pos(lbl[0].call.Pos()), "tables follow the header and the plain inline scripts", "tables are emitted before the header terminator / plain inline scripts")
+	c.Check(!canReach(lbl[0].call.(ssa.Instruction), bz[0].call.(ssa.Instruction)) && (plainScript == nil || !canReach(lbl[0].call.(ssa.Instruction), plainScript.site.(ssa.Instruction))), "tables/after-plain-scripts", c.W.Pos(lbl[0].call.Pos()), "tables follow the header and the plain inline scripts", "tables are emitted before the header terminator / plain inline scripts")
 }
 
 func c08b(c *Ctx) {
@@ -421,4 +440,17 @@ func c08d(c *Ctx) {
 		}
 	}
 	c.Check(okEntries, "append-only/table-entries", c.W.FuncPos(fn), "table entries are appended to the list of the table being parsed", "table entries are not appended to the running list of their table")
+}
+
+// returnedBuilder: the strings.Builder whose String() the function returns on success.
+func returnedBuilder(fn *ssa.Function) ssa.Value {
+	for _, r := range returnsOf(fn) {
+		if len(r.Results) == 0 {
+			continue
+		}
+		if call, ok := r.Results[0].(*ssa.Call); ok && calleeName(call) == "(*strings.Builder).String" {
+			return call.Call.Args[0]
+		}
+	}
+	return nil
 }
